@@ -405,7 +405,7 @@ def report(ck, exe_desc, oracle_bad, corr_bad, truncated, abort_text, stream_cmd
 
 
 def run(ck):
-    n_thm = 20
+    n_thm = 18
     proof_ok, failing = ck.proof_stage('MpVerif.C18.Props', 'MpVerif/C18/Props.lean', 'C18_',
                                        ['MpVerif/C18/*.lean'], expect_min=n_thm)
     ck.log('proof stage: ok=%s failing=%s' % (proof_ok, failing[:10]))
